@@ -3,10 +3,20 @@
   the shutdown path of bus/net/endpoint.go, as regenerated, are those of Model/Client.lean.
 -/
 import QiVerif.Generated.Client
+import QiVerif.Generated.Basic
 import QiVerif.Model.Client
 import QiVerif.Tie.C17
 namespace QiVerif.Tie.C11
 open QiVerif.Client
+
+/-- `basic.ReadN`, which `Message.Read` reads the header and the payload with: only a `Read` that reports no
+    error lets the loop go on; an error that is not end-of-stream ends it with an error whatever number of bytes
+    came along (`QiVerif.readN` on `Chunk.dataErr`, Props/C11Faults.lean) -/
+theorem readN_loop :
+    Gen.Basic.readN =
+      ["for size < length", "call r.Read(buf[size:])", "if err == nil && read != 0", "continue",
+       "if err == io.EOF && size == length", "break", "if err == io.EOF && size == 0",
+       "return io.EOF", "if err == nil", "return error", "return nil"] := by decide
 
 /-- `Call` up to the wait: the reply filter matches its own key and answers keep = false
     (`callSpec`: `dropOn = k`); the closer pushes a non-nil error; the handler is registered
